@@ -740,13 +740,19 @@ static void dump_users(void)
 		struct tun_user *u = &users[i];
 		struct sockaddr_in *h = (struct sockaddr_in *) &u->host;
 		struct sockaddr_in *qf = (struct sockaddr_in *) &u->q.from;
-		char hip[32], tip[32], qip[32];
+		char hip[64], tip[32], qip[64];
 		struct in_addr ta;
 		uint32_t dg;
 		int k;
 
-		inet_ntop(AF_INET, &h->sin_addr, hip, sizeof(hip));
-		inet_ntop(AF_INET, &qf->sin_addr, qip, sizeof(qip));
+		if (u->host.ss_family == AF_INET6)
+			inet_ntop(AF_INET6, &((struct sockaddr_in6 *) &u->host)->sin6_addr, hip, sizeof(hip));
+		else
+			inet_ntop(AF_INET, &h->sin_addr, hip, sizeof(hip));
+		if (u->q.from.ss_family == AF_INET6)
+			inet_ntop(AF_INET6, &((struct sockaddr_in6 *) &u->q.from)->sin6_addr, qip, sizeof(qip));
+		else
+			inet_ntop(AF_INET, &qf->sin_addr, qip, sizeof(qip));
 		ta.s_addr = u->tun_ip;
 		inet_ntop(AF_INET, &ta, tip, sizeof(tip));
 		/* field-wise digest of everything that is session state */
@@ -754,7 +760,10 @@ static void dump_users(void)
 		dg = fnv(&u->active, sizeof(int) * 5, dg);
 		dg = fnv(&u->last_pkt, sizeof(u->last_pkt), dg);
 		dg = fnv(&u->seed, sizeof(u->seed), dg);
-		dg = fnv(&h->sin_addr, 4, dg);
+		if (u->host.ss_family == AF_INET6)
+			dg = fnv(&((struct sockaddr_in6 *) &u->host)->sin6_addr, 16, dg);
+		else
+			dg = fnv(&h->sin_addr, 4, dg);
 		if (u->active) {
 			dg = fnv(&u->q.id, 2, dg);
 			dg = fnv(&u->q.id2, 2, dg);
